@@ -834,6 +834,11 @@ class Enforcer:
             for rule in rules:
                 if self._undefined_check(rule):
                     return True
+
+        # A NotCheck wraps a single rule.
+        rule = getattr(check, 'rule', None)
+        if rule is not None and self._undefined_check(rule):
+            return True
         return False
 
     def _cycle_check(self, check, seen=None):
@@ -870,6 +875,11 @@ class Enforcer:
                 # different branchs are seperated.
                 if self._cycle_check(rule, seen.copy()):
                     return True
+
+        # A NotCheck wraps a single rule.
+        rule = getattr(check, 'rule', None)
+        if rule is not None and self._cycle_check(rule, seen):
+            return True
         return False
 
     @staticmethod
